@@ -382,6 +382,64 @@ func flatExpected(cs *Case) (want string, fatal bool) {
 
 type finding = vh.Failure
 
+// posStream: the records of the main input in the order of the operand list, whoever takes them (main loop, getline, getline
+// var): a missing file delivers nothing and does not count as an input (the main loop dies there, getline returns -1 and the
+// walk goes on); stdin is read once when no operand named an input.
+func posStream(args []string, stdin []string, files map[string][]string) []srec {
+	var recs []srec
+	had := false
+	add := func(name string, rs []string) {
+		for i, r := range rs {
+			recs = append(recs, srec{NR: len(recs) + 1, FNR: i + 1, File: name, Line: r})
+		}
+		had = true
+	}
+	for _, a := range args {
+		switch {
+		case a == "" || reAssign.MatchString(a):
+		case a == "-":
+			add("-", stdin)
+			stdin = nil
+		default:
+			if rs, ok := files[a]; ok {
+				add(a, rs)
+			}
+		}
+	}
+	if !had {
+		add("-", stdin)
+	}
+	return recs
+}
+
+// walkFixed: the operand list is the one of the case for the whole run and every record of every input is delivered — no
+// ARGV / ARGC edit, no nextfile (statement or raised by a pattern's function)
+func walkFixed(cs *Case) bool {
+	if hasOp(cs, "sa") || hasOp(cs, "sc") || hasOp(cs, "nf") {
+		return false
+	}
+	for _, r := range cs.Rules {
+		if r.Raise == "nf" {
+			return false
+		}
+	}
+	return true
+}
+
+func filenameAssigned(cs *Case) bool {
+	for i := 0; i+1 < len(cs.Vars); i += 2 {
+		if cs.Vars[i] == "FILENAME" {
+			return true
+		}
+	}
+	for _, a := range cs.Args {
+		if strings.HasPrefix(a, "FILENAME=") {
+			return true
+		}
+	}
+	return hasOp(cs, "sf")
+}
+
 func oracle(cs *Case, r result) []finding {
 	var fs []finding
 	fail := func(what, got, want string) {
@@ -418,6 +476,13 @@ func oracle(cs *Case, r result) []finding {
 	fsTouched := touchesFS(cs)
 	fnTouched := hasOp(cs, "sf")
 	hasTick := len(cs.Rules) > 0 && cs.Rules[0].Pat == "a" && len(cs.Rules[0].Body) == 1 && cs.Rules[0].Body[0].K == "e" && cs.Rules[0].Body[0].N == 0
+	// ---- position clause: NR = n means the n-th record of the operand list's stream is the newest one taken, whoever took it
+	// and in whatever block — after exit in BEGIN or in a rule, after next, inside END, the stream continues where it stopped
+	var pos []srec
+	if walkFixed(cs) {
+		pos = posStream(cs.Args, cs.Stdin, cs.Files)
+	}
+	fnFree := !filenameAssigned(cs)
 	// ---- dynamic clauses
 	ticks, gl := 0, 0
 	exits := 0
@@ -437,6 +502,40 @@ func oracle(cs *Case, r result) []finding {
 				if e.NR != ticks+gl {
 					fail("nr_counts: NR is not (records taken by the main loop) + (successful getline and getline var)",
 						fmt.Sprintf("event %d: NR=%d", i, e.NR), fmt.Sprintf("%d+%d", ticks, gl))
+				}
+			}
+			if pos != nil {
+				// fresh: the newest input action was a successful take (a record of the main loop traced by the tick rule, or
+				// the getline / getline var right before this event); otherwise an unsuccessful look for more input may have
+				// opened later, empty inputs: FNR = 0 under their name
+				var took *Ev
+				if i > 1 && evs[i-1].Kind == "G" && evs[i-1].Ret == 1 && evs[i-1].Tag <= 1 && evs[i-2].Kind == "E" &&
+					zone(evs[i-2].Tag) == zone(e.Tag) && e.Tag != 0 && (hasTick || zone(e.Tag) != 0) {
+					took = &evs[i-1] // an emit / getline / emit triple inside one block: the main loop took no record in between
+				}
+				fresh := (hasTick && e.Tag == 0) || took != nil
+				switch {
+				case e.NR > len(pos):
+					fail("position: NR exceeds the number of records the operand list delivers", evString(*e), fmt.Sprint(len(pos)))
+				case e.NR == 0:
+					if e.FNR != 0 {
+						fail("position: FNR without any record taken", evString(*e), "")
+					}
+				default:
+					w := pos[e.NR-1]
+					if e.FNR != w.FNR && (fresh || e.FNR != 0) {
+						fail("position: FNR is not the position of record NR in its input (the record stream must continue exactly where it stopped, "+
+							"also after exit / next and in END)", evString(*e), fmt.Sprintf("record %d of the stream is %s:%d", e.NR, w.File, w.FNR))
+					}
+					if fresh && fnFree && e.Filename != w.File {
+						fail("position: FILENAME is not the input record NR came from", evString(*e), fmt.Sprintf("record %d of the stream is %s:%d", e.NR, w.File, w.FNR))
+					}
+					if ((hasTick && e.Tag == 0) || (took != nil && took.Tag == 0)) && e.Line != w.Line {
+						fail("position: $0 is not record NR of the operand list's stream", evString(*e), fmt.Sprintf("%q", w.Line))
+					}
+					if took != nil && took.Tag == 1 && e.Vars[0] != w.Line && e.Vars[1] != w.Line && e.Vars[2] != w.Line {
+						fail("position: getline var did not deliver record NR of the operand list's stream", evString(*e), fmt.Sprintf("%q", w.Line))
+					}
 				}
 			}
 			if !fsTouched && e.NF != nfOf(e.Line) {
